@@ -280,3 +280,18 @@ more('C18', 'dict accumulators in histograms; comprehension form of result conca
 more('C20', 'end-of-stream obligation', 'C20.c the normal end of the response loop is turned into a break (raise / publish by hand)')
 for _pid in ('C01', 'C02', 'C03', 'C04', 'C05', 'C06', 'C07', 'C08', 'C09', 'C10', 'C11', 'C12', 'C13', 'C14', 'C16', 'C17', 'C18', 'C19', 'C20'):
     more(_pid, 'one-shot-iterable-in-loop rule', f'{_pid}.z_loop a parameter annotated Iterable / Iterator that is never materialised is not consumed inside a loop over something else')
+more('C08', 'dispatch rule on the approximate-equality getter the decorator installs', 'C08.w the default _value_equality_approximate_values_ goes through self._value_equality_values_(), so subclasses that extend the exact values are compared on them by approx_eq (4 subclasses today)')
+more('C05', 'pairing rule on Moment subtraction', 'C05.r Moment.__sub__ consumes one entry of the removal collection per dropped operation (equal qubit-less operations keep their multiplicity)')
+more('C09', 'must-pass-through on the term loops of the channel / mixture strategies; own-method summaries in the trajectory rule',
+     'C09.o every loop that sums terms into args.out_buffer restores args.target_tensor from a stash (filled outside the loops) before a term may overwrite it; C09.b follows an own method that returns the squared norm')
+more('C04', 'the same term-loop rule; interpretation of the PhasedFSimGate kernel against the documented matrix',
+     'C04.m (= C09.o) terms of a mixture / channel start from the input tensor; C04.n PhasedFSimGate._apply_unitary_ equals the documented five-angle matrix on a 192-point grid incl. theta = +-pi')
+more('C03', 'interpretation of the PhasedFSimGate kernel against the documented matrix', 'C03.h (= C04.n) the in-place kernel and the documented matrix of PhasedFSimGate agree on a grid incl. theta = +-pi, zeta = 0')
+more('C07', 'body-for-operation rule follows helpers and named conditions', 'C07.e (extended) a helper that is handed the CircuitOperation, `resolve_parameters(<op>.circuit, ...)` as a way of taking the body, and a named local holding the own-tag test')
+more('C13', 'starred unpacking in the interpreter', 'C13.g interprets `p, *others = rows` forms of the measurement routine instead of giving up')
+for _pid in ('C01', 'C02', 'C03', 'C04', 'C05', 'C06', 'C07', 'C08', 'C09', 'C10', 'C11', 'C12', 'C13', 'C14', 'C16', 'C17', 'C18', 'C19', 'C20'):
+    more(_pid, 'stale-read, partial-mask and shallow-hashability rules over the attributed functions',
+         f'{_pid}.z_stale a read-modify-write of X[b] does not straddle a store to X[a] when a, b come from one unpacking and are never compared; '
+         f'{_pid}.z_mask a raw (possibly partial) invert_mask is zipped with the qubits only where absence means nothing or after padding; '
+         f'{_pid}.z_hash hashability of element data is decided by hash(), not by isinstance(x, Hashable)')
+more('C11', 'order coherence of repr and equality', 'C11.u a __repr__ does not sort / set-ify a field that equality compares in stored order (unless the constructor stores it canonicalised or the field is a set-valued property)')
